@@ -84,7 +84,7 @@ def generate(rng, tier, i):
     elif cls.startswith("near_"):
         k = rng.randrange(1, len(rects))
         t, r = rects[0], rects[k]
-        delta = rng.choice([1e-8, 1e-7, 1e-6, 1e-5, 1e-4, 1e-3, 1e-2, 0.1]) * scale
+        delta = rng.choice([1e-10, 3e-10, 1e-9, 1e-8, 1e-7, 1e-6, 1e-5, 1e-4, 1e-3, 1e-2, 0.1]) * scale
         # which side is r on?
         horizontal = abs(r[1] - t[1]) * t[2] < abs(r[0] - t[0]) * t[3] if False else None
         tx0, tx1, ty0, ty1 = t[0] - t[2] / 2, t[0] + t[2] / 2, t[1] - t[3] / 2, t[1] + t[3] / 2
